@@ -342,6 +342,8 @@ class Evaluator:
         if f[0] == "a":
             recv = self.ev(f[1], env, ex, depth)
             m = f[2]
+            if isinstance(recv, int) and not isinstance(recv, (Bits, bool)) and m == "bit_length" and not args:
+                return recv.bit_length()
             if isinstance(recv, ShapeV):
                 if m == "from_bits" and len(args) == 1:
                     return const_bits(args[0], recv.width)
